@@ -70,13 +70,17 @@ pub struct Mode {
     /// the root command is itself hosted (inside the core or inside wrapper commands):
     /// an abort of the root is noticed at its next poll, not at once
     pub hosted: bool,
+    /// scripts issue their shell requests through capability contexts although they run as
+    /// Command tasks: such requests do not pass through the command's `map_effect` layers
+    pub mixed: bool,
 }
 
 impl Mode {
-    pub const DIRECT: Mode = Mode { core: false, legacy: false, hosted: false };
-    pub const NESTED: Mode = Mode { core: false, legacy: false, hosted: true };
-    pub const CORE: Mode = Mode { core: true, legacy: false, hosted: true };
-    pub const LEGACY: Mode = Mode { core: true, legacy: true, hosted: true };
+    pub const MIXED: Mode = Mode { core: true, legacy: false, hosted: true, mixed: true };
+    pub const DIRECT: Mode = Mode { core: false, legacy: false, hosted: false, mixed: false };
+    pub const NESTED: Mode = Mode { core: false, legacy: false, hosted: true, mixed: false };
+    pub const CORE: Mode = Mode { core: true, legacy: false, hosted: true, mixed: false };
+    pub const LEGACY: Mode = Mode { core: true, legacy: true, hosted: true, mixed: false };
 }
 
 #[derive(Clone, Debug)]
@@ -879,8 +883,19 @@ impl Model {
         }
     }
 
+    fn emit_effect_script(&mut self, t: TaskId, site: u32, arg: u64, kind: u8) {
+        self.emit_effect_with(t, site, arg, kind, self.mode.mixed)
+    }
+
     fn emit_effect(&mut self, t: TaskId, site: u32, arg: u64, kind: u8) {
-        let (_, trail) = self.trails(t);
+        self.emit_effect_with(t, site, arg, kind, false)
+    }
+
+    fn emit_effect_with(&mut self, t: TaskId, site: u32, arg: u64, kind: u8, bypass_maps: bool) {
+        let (_, mut trail) = self.trails(t);
+        if bypass_maps {
+            trail.clear();
+        }
         self.eff_out.push(EffObs {
             site,
             arg,
@@ -1184,6 +1199,10 @@ impl Model {
     }
 
     fn pull_stream(&mut self, t: TaskId, ss: &mut StreamSt) -> Pull {
+        self.pull_stream_from(t, ss, false)
+    }
+
+    fn pull_stream_from(&mut self, t: TaskId, ss: &mut StreamSt, script: bool) -> Pull {
         if ss.ended {
             return Pull::End;
         }
@@ -1198,7 +1217,7 @@ impl Model {
             return Pull::Pending;
         }
         if !ss.issued {
-            self.emit_effect(t, ss.key.0, ss.key.1, KIND_MANY);
+            self.emit_effect_with(t, ss.key.0, ss.key.1, KIND_MANY, script && self.mode.mixed);
             ss.issued = true;
         }
         let r = self.reqs.get_mut(&ss.key).unwrap();
@@ -1274,7 +1293,7 @@ impl Model {
                     },
                     Blocked::Next(i) => {
                         let mut ss = st.streams[i].take().expect("blocked on a live stream");
-                        match self.pull_stream(t, &mut ss) {
+                        match self.pull_stream_from(t, &mut ss, true) {
                             Pull::Item(v) => {
                                 st.regs.push(v);
                                 st.streams[i] = Some(ss);
@@ -1408,7 +1427,7 @@ impl Model {
             match st.instrs[st.pc].clone() {
                 Instr::Req { site, arg } => {
                     let a = arg.map(|r| st.regs[r]).unwrap_or(0);
-                    self.emit_effect(t, site, a, KIND_ONCE);
+                    self.emit_effect_script(t, site, a, KIND_ONCE);
                     st.blocked = Some(Blocked::Req((site, a)));
                     return false; // a fresh request always suspends the task once
                 }
@@ -1439,7 +1458,7 @@ impl Model {
                     st.pc += 1;
                 }
                 Instr::Notify { site } => {
-                    self.emit_effect(t, site, 0, KIND_NEVER);
+                    self.emit_effect_script(t, site, 0, KIND_NEVER);
                     st.pc += 1;
                 }
                 Instr::Spawn { script } => {
@@ -1491,7 +1510,7 @@ impl Model {
                 Instr::JoinAll { sites } => {
                     let keys: Vec<Key> = sites.iter().map(|s| (*s, 0)).collect();
                     for s in &sites {
-                        self.emit_effect(t, *s, 0, KIND_ONCE);
+                        self.emit_effect_script(t, *s, 0, KIND_ONCE);
                     }
                     if keys.is_empty() {
                         st.pc += 1;
@@ -1507,7 +1526,7 @@ impl Model {
                 Instr::JoinMixed { sites, handles } => {
                     let keys: Vec<Key> = sites.iter().map(|s| (*s, 0)).collect();
                     for s in &sites {
-                        self.emit_effect(t, *s, 0, KIND_ONCE);
+                        self.emit_effect_script(t, *s, 0, KIND_ONCE);
                     }
                     let n = keys.len();
                     let targets: Vec<TaskId> = handles.iter().map(|h| st.handles[*h]).collect();
@@ -1535,7 +1554,7 @@ impl Model {
                 Instr::Select { sites } => {
                     let keys: Vec<Key> = sites.iter().map(|s| (*s, 0)).collect();
                     for s in &sites {
-                        self.emit_effect(t, *s, 0, KIND_ONCE);
+                        self.emit_effect_script(t, *s, 0, KIND_ONCE);
                     }
                     st.blocked = Some(Blocked::Select { keys });
                     return false;
@@ -1551,7 +1570,7 @@ impl Model {
                 Instr::JoinAllUnordered { sites } => {
                     let keys: Vec<Key> = sites.iter().map(|s| (*s, 0)).collect();
                     for s in &sites {
-                        self.emit_effect(t, *s, 0, KIND_ONCE);
+                        self.emit_effect_script(t, *s, 0, KIND_ONCE);
                     }
                     if keys.is_empty() {
                         st.pc += 1;
